@@ -289,6 +289,18 @@ fn cmd_sanetable() -> String {
             return format!("bad brace_plain {c}");
         }
     }
+    // `Sane2`: the punctuation of the spec grammar is neither identifier material nor whitespace,
+    // and the type letters are not whitespace.
+    for c in [':', '$', '.', '?', '+', '-', '#', '<', '^', '>', '*'] {
+        if c.is_xid_continue() || c.is_xid_start() || c.is_whitespace() {
+            return format!("bad special_plain {c}");
+        }
+    }
+    for c in ['x', 'X', 'o', 'p', 'b', 'e', 'E'] {
+        if c.is_whitespace() {
+            return format!("bad letter_plain {c}");
+        }
+    }
     "ok".into()
 }
 
